@@ -53,5 +53,12 @@ package py
 // ---- py/exception.go -----------------------------------------------------------------------
 
 //@ func ExceptionNewf(metatype, format, a) (r)
-//@   modifies *
-//@   ensures made: r != nil && r.Base == metatype
+//@   ensures made: r != nil && r.Base == metatype && fresh(r)
+
+// ---- assumed frames of float helpers reached from integer power (their behaviour belongs to C15) ----
+
+//@ func (*BigInt).Float(a) (r, err)
+//@   trusted
+//@   pure
+//@ func (Float).M__pow__(a, other, modulus) (r, err)
+//@   trusted
